@@ -1,11 +1,1234 @@
-//! C03 — not built yet (see DESIGN.md §5 C03).
+//! C03 — the columnar aggregate fast path returns exactly what row execution returns.
+//!
+//! Space: every database of a two-column table `t(a, b)` (column type sets INT/DOUBLE/mixed and a
+//! VARCHAR column in either position) holding every row sequence of length 0..2 and every row
+//! multiset (inserted ascending and descending) up to the tier's size over {NULL,0,1,2} per column
+//! × every query of a bounded family of single-table aggregate queries (1–2 aggregates, the WHERE
+//! shapes `is_simple_predicate` admits, HAVING, ORDER BY, LIMIT/OFFSET, the table reached directly,
+//! through an alias, a view and a CTE).
+//! Oracles, every case: (a) the same statement executed with the columnar gate forced off
+//! (`vibesql_types::verif::set_columnar_off`) must give the same rows; (b) the three laws the
+//! property states, decided on the result of the shipped configuration with `refagg`:
+//! COUNT never NULL; exactly one row unless HAVING/LIMIT/OFFSET removes it; NULLs ignored by
+//! SUM/AVG/MIN/MAX/COUNT(col).
 
-pub fn run(_tier: &str) -> i32 {
-    eprintln!("MACHINERY-ERROR C03 is not built yet");
-    2
+use std::collections::{BTreeMap, HashSet};
+
+use serde_json::{json, Value};
+use vcore::report::Report;
+use vcore::util::{multisets, par_map};
+use vcore::val::NV;
+use vibesql_ast::SelectStmt;
+
+use crate::common::{self, nv, Obs};
+use crate::refagg::{self, aggregate, arith, compare, Func, T3, V};
+
+// ---------------------------------------------------------------------------------------------
+// query family
+// ---------------------------------------------------------------------------------------------
+
+#[derive(Clone, Debug, PartialEq)]
+pub enum Arg {
+    Star,
+    Col(usize),
+    Mul,
+    Add,
 }
 
-pub fn replay(_case: &serde_json::Value) -> i32 {
-    eprintln!("MACHINERY-ERROR C03 is not built yet");
-    2
+#[derive(Clone, Debug, PartialEq)]
+pub struct Agg {
+    pub f: Func,
+    pub arg: Arg,
+}
+
+#[derive(Clone, Debug)]
+pub enum Atom {
+    /// `col op lit` or (rev) `lit op col`
+    Cmp { col: usize, op: &'static str, lit: V, rev: bool },
+    Between { col: usize, lo: V, hi: V, sym: bool, neg: bool },
+    /// `a op b`
+    ColCol { op: &'static str },
+    /// `a + 1 > 1`
+    ExprCmp,
+    /// `(x OR y)` — only generated below an AND (the gate looks at the top operator only)
+    Or(Box<Atom>, Box<Atom>),
+}
+
+#[derive(Clone, Debug)]
+pub enum Having {
+    CountGt(i64),
+    SumBIsNull,
+    MinAEq0,
+}
+
+#[derive(Clone, Copy, Debug, PartialEq)]
+pub enum Src {
+    Table,
+    /// `FROM t AS x`, columns qualified `x.a`
+    Alias,
+    /// `FROM v`, `CREATE VIEW v AS SELECT a, b FROM t`
+    View,
+    /// `WITH w AS (SELECT a, b FROM t) … FROM w`
+    Cte,
+}
+
+#[derive(Clone, Debug)]
+pub struct Q {
+    pub src: Src,
+    pub aggs: Vec<Agg>,
+    pub wher: Vec<Atom>,
+    pub having: Option<Having>,
+    pub order: bool,
+    pub limit: Option<usize>,
+    pub offset: Option<usize>,
+}
+
+const COLS: [&str; 2] = ["a", "b"];
+
+impl Q {
+    fn col(&self, i: usize) -> String {
+        if self.src == Src::Alias {
+            format!("x.{}", COLS[i])
+        } else {
+            COLS[i].to_string()
+        }
+    }
+    fn arg_sql(&self, a: &Arg) -> String {
+        match a {
+            Arg::Star => "*".into(),
+            Arg::Col(i) => self.col(*i),
+            Arg::Mul => format!("{} * {}", self.col(0), self.col(1)),
+            Arg::Add => format!("{} + {}", self.col(0), self.col(1)),
+        }
+    }
+    fn atom_sql(&self, a: &Atom) -> String {
+        match a {
+            Atom::Cmp { col, op, lit, rev: false } => format!("{} {} {}", self.col(*col), op, lit.sql()),
+            Atom::Cmp { col, op, lit, rev: true } => format!("{} {} {}", lit.sql(), op, self.col(*col)),
+            Atom::Between { col, lo, hi, sym, neg } => format!(
+                "{} {}BETWEEN {}{} AND {}",
+                self.col(*col),
+                if *neg { "NOT " } else { "" },
+                if *sym { "SYMMETRIC " } else { "" },
+                lo.sql(),
+                hi.sql()
+            ),
+            Atom::ColCol { op } => format!("{} {} {}", self.col(0), op, self.col(1)),
+            Atom::ExprCmp => format!("{} + 1 > 1", self.col(0)),
+            Atom::Or(x, y) => format!("({} OR {})", self.atom_sql(x), self.atom_sql(y)),
+        }
+    }
+    pub fn sql(&self) -> String {
+        let mut s = String::new();
+        if self.src == Src::Cte {
+            s.push_str("WITH w AS (SELECT a, b FROM t) ");
+        }
+        s.push_str("SELECT ");
+        s.push_str(
+            &self.aggs.iter().map(|g| format!("{}({})", g.f.name(), self.arg_sql(&g.arg))).collect::<Vec<_>>().join(", "),
+        );
+        s.push_str(match self.src {
+            Src::Table => " FROM t",
+            Src::Alias => " FROM t AS x",
+            Src::View => " FROM v",
+            Src::Cte => " FROM w",
+        });
+        if !self.wher.is_empty() {
+            s.push_str(" WHERE ");
+            s.push_str(&self.wher.iter().map(|a| self.atom_sql(a)).collect::<Vec<_>>().join(" AND "));
+        }
+        match &self.having {
+            None => {}
+            Some(Having::CountGt(k)) => s.push_str(&format!(" HAVING COUNT(*) > {}", k)),
+            Some(Having::SumBIsNull) => s.push_str(&format!(" HAVING SUM({}) IS NULL", self.col(1))),
+            Some(Having::MinAEq0) => s.push_str(&format!(" HAVING MIN({}) = 0", self.col(0))),
+        }
+        if self.order {
+            s.push_str(" ORDER BY 1");
+        }
+        if let Some(l) = self.limit {
+            s.push_str(&format!(" LIMIT {}", l));
+        }
+        if let Some(o) = self.offset {
+            s.push_str(&format!(" OFFSET {}", o));
+        }
+        s
+    }
+
+    // ----- reference semantics ----------------------------------------------------------------
+
+    fn atom_eval(a: &Atom, row: &[V]) -> T3 {
+        match a {
+            Atom::Cmp { col, op, lit, rev: false } => compare(&row[*col], op, lit),
+            Atom::Cmp { col, op, lit, rev: true } => compare(lit, op, &row[*col]),
+            Atom::Between { col, lo, hi, sym, neg } => {
+                let x = &row[*col];
+                let plain = |l: &V, h: &V| compare(x, ">=", l).and(compare(x, "<=", h));
+                let mut t = plain(lo, hi);
+                if *sym {
+                    t = t.or(plain(hi, lo));
+                }
+                if *neg {
+                    t.not()
+                } else {
+                    t
+                }
+            }
+            Atom::ColCol { op } => compare(&row[0], op, &row[1]),
+            Atom::ExprCmp => compare(&arith(&row[0], '+', &V::I(1)), ">", &V::I(1)),
+            Atom::Or(x, y) => Self::atom_eval(x, row).or(Self::atom_eval(y, row)),
+        }
+    }
+    fn arg_eval(a: &Arg, row: &[V]) -> V {
+        match a {
+            Arg::Star => V::I(1),
+            Arg::Col(i) => row[*i].clone(),
+            Arg::Mul => arith(&row[0], '*', &row[1]),
+            Arg::Add => arith(&row[0], '+', &row[1]),
+        }
+    }
+    /// Rows the WHERE clause selects (TRUE only).
+    fn selected<'a>(&self, rows: &'a [Vec<V>]) -> Vec<&'a Vec<V>> {
+        rows.iter().filter(|r| self.wher.iter().fold(T3::True, |t, a| t.and(Self::atom_eval(a, r))) == T3::True).collect()
+    }
+    fn agg_inputs(&self, g: &Agg, sel: &[&Vec<V>]) -> Vec<V> {
+        sel.iter().map(|r| Self::arg_eval(&g.arg, r)).collect()
+    }
+    /// The result by definition: the aggregate row (always computed) and the rows that remain
+    /// after HAVING / OFFSET / LIMIT.
+    pub fn reference(&self, rows: &[Vec<V>]) -> (Vec<V>, Vec<Vec<V>>) {
+        let sel = self.selected(rows);
+        let row: Vec<V> = self.aggs.iter().map(|g| aggregate(g.f, false, &self.agg_inputs(g, &sel))).collect();
+        let keep = match &self.having {
+            None => true,
+            Some(Having::CountGt(k)) => sel.len() as i64 > *k,
+            Some(Having::SumBIsNull) => {
+                aggregate(Func::Sum, false, &sel.iter().map(|r| r[1].clone()).collect::<Vec<_>>()).is_null()
+            }
+            Some(Having::MinAEq0) => {
+                let m = aggregate(Func::Min, false, &sel.iter().map(|r| r[0].clone()).collect::<Vec<_>>());
+                compare(&m, "=", &V::I(0)) == T3::True
+            }
+        };
+        let mut out = if keep { vec![row.clone()] } else { vec![] };
+        if let Some(o) = self.offset {
+            let o = o.min(out.len());
+            out.drain(..o);
+        }
+        if let Some(l) = self.limit {
+            out.truncate(l);
+        }
+        (row, out)
+    }
+
+    // ----- signature features (input only) ----------------------------------------------------
+
+    fn agg_label(g: &Agg) -> String {
+        let a = match g.arg {
+            Arg::Star => "*",
+            Arg::Col(_) => "col",
+            Arg::Mul | Arg::Add => "expr",
+        };
+        format!("{}({})", g.f.name(), a)
+    }
+    /// Coarse class of the WHERE clause (what the columnar filter does with it).
+    fn where_shape(&self) -> &'static str {
+        fn atom(a: &Atom) -> &'static str {
+            match a {
+                Atom::Cmp { op: "<>", .. } => "fallback_not_equal",
+                Atom::Cmp { lit: V::Null, .. } => "cmp_null_literal",
+                Atom::Cmp { rev: true, .. } => "cmp_literal_first",
+                Atom::Cmp { .. } => "cmp",
+                Atom::Between { neg: true, .. } => "fallback_not_between",
+                Atom::Between { sym: true, .. } => "between_symmetric",
+                Atom::Between { lo, hi, .. } if lo.is_null() || hi.is_null() => "between_null_bound",
+                Atom::Between { .. } => "between",
+                Atom::ColCol { .. } | Atom::ExprCmp | Atom::Or(..) => "fallback_complex",
+            }
+        }
+        match self.wher.len() {
+            0 => "none",
+            1 => atom(&self.wher[0]),
+            _ => {
+                if self.wher.iter().any(|a| atom(a).starts_with("fallback")) {
+                    "and_fallback"
+                } else {
+                    "and"
+                }
+            }
+        }
+    }
+    fn tail_shape(&self) -> &'static str {
+        if self.having.is_some() {
+            "having"
+        } else if self.limit == Some(0) {
+            "limit0"
+        } else if self.offset.unwrap_or(0) > 0 {
+            "offset"
+        } else if self.limit.is_some() || self.offset.is_some() {
+            "limit_keeps_row"
+        } else if self.order {
+            "order_by"
+        } else {
+            "none"
+        }
+    }
+}
+
+// column kinds -------------------------------------------------------------------------------
+
+#[derive(Clone, Copy, Debug, PartialEq, Eq)]
+pub enum Kind {
+    Int,
+    Dbl,
+    Str,
+    /// SMALLINT / BIGINT: integer domains (other SqlValue variants, other SIMD result types)
+    Small,
+    Big,
+    /// REAL (stored as f32) / NUMERIC(10,2) (stored as f64 under its own variant): float domains
+    Real,
+    Num,
+}
+
+/// Which value domain a column ranges over.
+#[derive(Clone, Copy, Debug, PartialEq, Eq)]
+pub enum Dom {
+    /// NULL,1,2 (strings NULL,'a','b')
+    Three,
+    /// NULL,0,1,2 (strings NULL,'a','b','ab')
+    Four,
+    /// Four + boundary values: i64::MAX, 2^53+1 (INT); 0.5, 2^53 (DOUBLE)
+    Extended,
+}
+
+impl Kind {
+    fn sql_type(self) -> &'static str {
+        match self {
+            Kind::Int => "INT",
+            Kind::Dbl => "DOUBLE",
+            Kind::Str => "VARCHAR(5)",
+            Kind::Small => "SMALLINT",
+            Kind::Big => "BIGINT",
+            Kind::Real => "REAL",
+            Kind::Num => "NUMERIC(10, 2)",
+        }
+    }
+    fn domain(self, d: Dom) -> Vec<V> {
+        match self {
+            Kind::Int | Kind::Small | Kind::Big => match d {
+                Dom::Three => vec![V::Null, V::I(1), V::I(2)],
+                Dom::Four => vec![V::Null, V::I(0), V::I(1), V::I(2)],
+                Dom::Extended => vec![V::Null, V::I(0), V::I(1), V::I(2), V::I(i64::MAX), V::I((1i64 << 53) + 1)],
+            },
+            Kind::Dbl | Kind::Real | Kind::Num => match d {
+                Dom::Three => vec![V::Null, V::F(1.0), V::F(2.0)],
+                Dom::Four => vec![V::Null, V::F(0.0), V::F(1.0), V::F(2.0)],
+                Dom::Extended => vec![V::Null, V::F(0.0), V::F(1.0), V::F(2.0), V::F(0.5), V::F(9007199254740992.0)],
+            },
+            Kind::Str => match d {
+                Dom::Three => vec![V::Null, V::S("a".into()), V::S("b".into())],
+                _ => vec![V::Null, V::S("a".into()), V::S("b".into()), V::S("ab".into())],
+            },
+        }
+    }
+    fn is_num(self) -> bool {
+        self != Kind::Str
+    }
+}
+
+pub type TypeSet = [Kind; 2];
+
+fn typeset_name(ts: &TypeSet) -> String {
+    format!("{},{}", ts[0].sql_type(), ts[1].sql_type())
+}
+
+/// Size of the query family.
+#[derive(Clone, Copy, Debug, PartialEq, Eq, PartialOrd, Ord)]
+pub enum Level {
+    Small,
+    Core,
+    Full,
+}
+
+/// Literal menu; positions 0..3 are fixed (0, 1, 2, NULL / 'a', 'ab', 'b', NULL).
+fn lits(k: Kind, level: Level) -> Vec<V> {
+    if k.is_num() {
+        let mut l = vec![V::I(0), V::I(1), V::I(2), V::Null];
+        if level == Level::Full {
+            l.push(V::F(1.0));
+            l.push(V::F(0.5));
+        }
+        l
+    } else {
+        vec![V::S("a".into()), V::S("ab".into()), V::S("b".into()), V::Null]
+    }
+}
+
+fn q(aggs: Vec<Agg>, wher: Vec<Atom>) -> Q {
+    Q { src: Src::Table, aggs, wher, having: None, order: false, limit: None, offset: None }
+}
+
+fn ag(f: Func, arg: Arg) -> Agg {
+    Agg { f, arg }
+}
+
+const OPS: [&str; 6] = ["=", "<>", "<", "<=", ">", ">="];
+const FIVE: [Func; 5] = [Func::Count, Func::Sum, Func::Avg, Func::Min, Func::Max];
+
+/// Aggregates that are type-correct for the column kinds.
+fn singles(ts: &TypeSet) -> Vec<Agg> {
+    let mut out = vec![ag(Func::CountStar, Arg::Star)];
+    for c in 0..2 {
+        for f in FIVE {
+            if ts[c].is_num() || matches!(f, Func::Count | Func::Min | Func::Max) {
+                out.push(ag(f, Arg::Col(c)));
+            }
+        }
+    }
+    if ts[0].is_num() && ts[1].is_num() {
+        for arg in [Arg::Mul, Arg::Add] {
+            for f in FIVE {
+                out.push(ag(f, arg.clone()));
+            }
+        }
+    }
+    out
+}
+
+fn atoms(ts: &TypeSet, level: Level) -> Vec<Atom> {
+    let mut out = vec![];
+    let revs: &[bool] = if level == Level::Small { &[false] } else { &[false, true] };
+    for &rev in revs {
+        for col in 0..2 {
+            for op in OPS {
+                let all = lits(ts[col], level);
+                // Small: the middle literal only; Core: the middle literal and NULL; Full: all
+                let menu: Vec<V> = match level {
+                    Level::Small => vec![all[1].clone()],
+                    Level::Core => vec![all[1].clone(), all[3].clone()],
+                    Level::Full => all,
+                };
+                for lit in menu {
+                    out.push(Atom::Cmp { col, op, lit, rev });
+                }
+            }
+        }
+    }
+    if level == Level::Small {
+        let l = lits(ts[0], level);
+        out.push(Atom::Cmp { col: 0, op: "=", lit: V::Null, rev: false });
+        out.push(Atom::Cmp { col: 1, op: "<=", lit: V::Null, rev: false });
+        out.push(Atom::Cmp { col: 0, op: "<", lit: l[1].clone(), rev: true });
+        out.push(Atom::Cmp { col: 0, op: ">=", lit: l[2].clone(), rev: true });
+    }
+    for col in 0..2 {
+        let mut bounds: Vec<(V, V)> = if ts[col].is_num() {
+            vec![
+                (V::I(1), V::I(2)),
+                (V::I(2), V::I(0)),
+                (V::I(0), V::Null),
+                (V::I(1), V::I(1)),
+                (V::I(0), V::I(1)),
+                (V::Null, V::I(1)),
+                (V::F(0.5), V::F(1.5)),
+            ]
+        } else {
+            vec![(V::S("a".into()), V::S("ab".into())), (V::S("b".into()), V::S("a".into())), (V::S("a".into()), V::Null)]
+        };
+        match level {
+            Level::Small => bounds.truncate(2),
+            Level::Core => bounds.truncate(4),
+            Level::Full => {}
+        }
+        for (lo, hi) in bounds {
+            for (sym, neg) in [(false, false), (true, false), (false, true)] {
+                out.push(Atom::Between { col, lo: lo.clone(), hi: hi.clone(), sym, neg });
+            }
+        }
+    }
+    out
+}
+
+fn and_pairs(ts: &TypeSet, level: Level) -> Vec<Vec<Atom>> {
+    let menu = |col: usize| -> Vec<Atom> {
+        let l = lits(ts[col], level);
+        vec![
+            Atom::Cmp { col, op: "=", lit: l[1].clone(), rev: false },
+            Atom::Cmp { col, op: ">=", lit: l[1].clone(), rev: false },
+            Atom::Cmp { col, op: "<", lit: l[2].clone(), rev: false },
+            Atom::Cmp { col, op: "<=", lit: l[0].clone(), rev: true },
+            Atom::Cmp { col, op: "<>", lit: l[0].clone(), rev: false },
+            Atom::Between { col, lo: l[0].clone(), hi: l[1].clone(), sym: false, neg: false },
+        ]
+    };
+    let (a, b) = (menu(0), menu(1));
+    let mut out = vec![];
+    let k = match level {
+        Level::Small => 1,
+        Level::Core => 3,
+        Level::Full => 6,
+    };
+    for x in a.iter().take(k) {
+        for y in b.iter().take(k) {
+            out.push(vec![x.clone(), y.clone()]);
+        }
+    }
+    // same column twice, three conjuncts, an OR below the AND
+    out.push(vec![b[1].clone(), b[2].clone()]);
+    out.push(vec![a[1].clone(), b[1].clone(), b[2].clone()]);
+    out.push(vec![Atom::Or(Box::new(a[0].clone()), Box::new(b[0].clone())), a[2].clone()]);
+    if level != Level::Small {
+        out.push(vec![a[1].clone(), a[2].clone()]);
+        out.push(vec![a[2].clone(), Atom::Or(Box::new(a[0].clone()), Box::new(b[0].clone()))]);
+    }
+    out
+}
+
+/// The query family for one type set at one level, simplest first. Small ⊂ Core ⊂ Full in
+/// spirit (same construction, smaller menus).
+pub fn family(ts: &TypeSet, level: Level) -> Vec<Q> {
+    let num = ts[0].is_num() && ts[1].is_num();
+    let l = |c: usize, i: usize| lits(ts[c], level)[i].clone();
+    let w_b_ge = vec![Atom::Cmp { col: 1, op: ">=", lit: l(1, 1), rev: false }];
+    let w_a_eq = vec![Atom::Cmp { col: 0, op: "=", lit: l(0, 1), rev: false }];
+    let mut out: Vec<Q> = vec![];
+
+    // F1: select lists (singles; pairs from Core up) × two or three WHERE clauses
+    let s = singles(ts);
+    let mut lists: Vec<Vec<Agg>> = s.iter().map(|g| vec![g.clone()]).collect();
+    for x in &s {
+        for y in &s {
+            let star = x.f == Func::CountStar || y.f == Func::CountStar;
+            let cols = matches!((&x.arg, &y.arg), (Arg::Col(_), Arg::Col(_)));
+            let keep = match level {
+                Level::Small => x.f == Func::CountStar && matches!(y.arg, Arg::Col(1)),
+                Level::Core => star || cols,
+                Level::Full => true,
+            };
+            if x != y && keep {
+                lists.push(vec![x.clone(), y.clone()]);
+            }
+        }
+    }
+    let f1_wheres: Vec<Vec<Atom>> =
+        if level == Level::Full { vec![vec![], w_b_ge.clone(), w_a_eq.clone()] } else { vec![vec![], w_b_ge.clone()] };
+    for aggs in &lists {
+        for w in &f1_wheres {
+            out.push(q(aggs.clone(), w.clone()));
+        }
+    }
+
+    // F2: every WHERE shape × a few select lists
+    let mut few: Vec<Vec<Agg>> = vec![vec![ag(Func::CountStar, Arg::Star), ag(Func::Max, Arg::Col(1))]];
+    if level >= Level::Core {
+        few.push(vec![ag(Func::Count, Arg::Col(0))]);
+        if num {
+            few.push(vec![ag(Func::Sum, Arg::Col(0)), ag(Func::Avg, Arg::Col(1))]);
+        } else {
+            few.push(vec![ag(Func::Min, Arg::Col(0)), ag(Func::Max, Arg::Col(1))]);
+        }
+    }
+    if level == Level::Full {
+        few.push(vec![ag(Func::CountStar, Arg::Star)]);
+        few.push(vec![ag(Func::Min, Arg::Col(0)), ag(Func::Max, Arg::Col(1))]);
+        if num {
+            few.push(vec![ag(Func::Sum, Arg::Mul)]);
+        }
+    }
+    let mut wheres: Vec<Vec<Atom>> = atoms(ts, level).into_iter().map(|a| vec![a]).collect();
+    wheres.extend(and_pairs(ts, level));
+    if num {
+        let ops: &[&'static str] = if level == Level::Small { &["<"] } else { &["=", "<", ">="] };
+        for op in ops {
+            wheres.push(vec![Atom::ColCol { op }]);
+        }
+        wheres.push(vec![Atom::ExprCmp]);
+    }
+    for aggs in &few {
+        for w in &wheres {
+            out.push(q(aggs.clone(), w.clone()));
+        }
+    }
+
+    // F3: tails
+    let mut tail_lists: Vec<Vec<Agg>> = vec![vec![ag(Func::CountStar, Arg::Star), ag(Func::Min, Arg::Col(0))]];
+    if level >= Level::Core {
+        tail_lists.push(vec![ag(Func::CountStar, Arg::Star)]);
+    }
+    if level == Level::Full && num {
+        tail_lists.push(vec![ag(Func::Sum, Arg::Col(1))]);
+    }
+    let mut havings = vec![None, Some(Having::CountGt(1))];
+    if num {
+        havings.push(Some(Having::SumBIsNull));
+    }
+    if level >= Level::Core {
+        havings.push(Some(Having::CountGt(0)));
+        havings.push(Some(Having::CountGt(100)));
+        if num {
+            havings.push(Some(Having::MinAEq0));
+        }
+    }
+    let tail_wheres: Vec<Vec<Atom>> = if level == Level::Small { vec![vec![]] } else { vec![vec![], w_b_ge.clone()] };
+    let orders: &[bool] = if level == Level::Small { &[false] } else { &[false, true] };
+    let limits: &[Option<usize>] = if level == Level::Small { &[None, Some(0)] } else { &[None, Some(0), Some(1)] };
+    let offsets: &[Option<usize>] = if level == Level::Full { &[None, Some(0), Some(1)] } else { &[None, Some(1)] };
+    for aggs in &tail_lists {
+        for w in &tail_wheres {
+            for h in &havings {
+                for &order in orders {
+                    for &limit in limits {
+                        for &offset in offsets {
+                            if h.is_none() && !order && limit.is_none() && offset.is_none() {
+                                continue; // already in F1/F2
+                            }
+                            out.push(Q { src: Src::Table, aggs: aggs.clone(), wher: w.clone(), having: h.clone(), order, limit, offset });
+                        }
+                    }
+                }
+            }
+        }
+    }
+    if level == Level::Small {
+        out.push(Q { src: Src::Table, aggs: tail_lists[0].clone(), wher: vec![], having: None, order: true, limit: Some(1), offset: None });
+    }
+
+    // F4: the same table reached through an alias, a view, a CTE
+    for src in [Src::Alias, Src::View, Src::Cte] {
+        for aggs in &few {
+            let ws: Vec<Vec<Atom>> = match level {
+                Level::Small => vec![w_b_ge.clone()],
+                Level::Core => vec![vec![], w_b_ge.clone()],
+                Level::Full => vec![vec![], w_b_ge.clone(), w_a_eq.clone()],
+            };
+            for w in ws {
+                let lims: &[Option<usize>] = if level == Level::Small { &[None] } else { &[None, Some(0)] };
+                for &limit in lims {
+                    out.push(Q { src, aggs: aggs.clone(), wher: w.clone(), having: None, order: false, limit, offset: None });
+                }
+            }
+        }
+    }
+    out
+}
+
+// ---------------------------------------------------------------------------------------------
+// databases
+// ---------------------------------------------------------------------------------------------
+
+fn row_kinds(ts: &TypeSet, d: Dom) -> Vec<Vec<V>> {
+    let mut out = vec![];
+    for x in ts[0].domain(d) {
+        for y in ts[1].domain(d) {
+            out.push(vec![x.clone(), y.clone()]);
+        }
+    }
+    out
+}
+
+/// Which row lists of which sizes.
+#[derive(Clone, Copy, Debug, PartialEq, Eq)]
+pub enum Rows {
+    /// all row sequences of length lo..=hi (order matters to the columnar path)
+    Sequences(usize, usize),
+    /// all row multisets of size exactly k, inserted ascending and descending
+    MultisetsBothOrders(usize),
+    /// all row multisets of size exactly k, inserted ascending
+    Multisets(usize),
+}
+
+fn databases(ts: &TypeSet, d: Dom, r: Rows) -> Vec<Vec<Vec<V>>> {
+    let kinds = row_kinds(ts, d);
+    let mut out: Vec<Vec<Vec<V>>> = vec![];
+    match r {
+        Rows::Sequences(lo, hi) => {
+            for len in lo..=hi {
+                for s in common::sequences(kinds.len(), len) {
+                    out.push(s.iter().map(|&i| kinds[i].clone()).collect());
+                }
+            }
+        }
+        Rows::MultisetsBothOrders(k) | Rows::Multisets(k) => {
+            for m in multisets(kinds.len(), k) {
+                let asc: Vec<Vec<V>> = m.iter().map(|&i| kinds[i].clone()).collect();
+                let mut desc = asc.clone();
+                desc.reverse();
+                let both = matches!(r, Rows::MultisetsBothOrders(_)) && desc != asc;
+                out.push(asc);
+                if both {
+                    out.push(desc);
+                }
+            }
+        }
+    }
+    out
+}
+
+/// One block of the exploration: type sets × a family level × a set of databases.
+struct Block {
+    typesets: Vec<TypeSet>,
+    level: Level,
+    dom: Dom,
+    rows: Rows,
+}
+
+const II: TypeSet = [Kind::Int, Kind::Int];
+const DD: TypeSet = [Kind::Dbl, Kind::Dbl];
+const ID: TypeSet = [Kind::Int, Kind::Dbl];
+const DI: TypeSet = [Kind::Dbl, Kind::Int];
+const SI: TypeSet = [Kind::Str, Kind::Int];
+const IS: TypeSet = [Kind::Int, Kind::Str];
+const SB: TypeSet = [Kind::Small, Kind::Big];
+const BS: TypeSet = [Kind::Big, Kind::Small];
+const RN: TypeSet = [Kind::Real, Kind::Num];
+const NR: TypeSet = [Kind::Num, Kind::Real];
+
+fn plan(thorough: bool) -> Vec<Block> {
+    if !thorough {
+        vec![
+            Block { typesets: vec![II, ID], level: Level::Core, dom: Dom::Three, rows: Rows::Sequences(0, 2) },
+            Block { typesets: vec![DD, SI, IS, SB, RN], level: Level::Small, dom: Dom::Three, rows: Rows::Sequences(0, 2) },
+        ]
+    } else {
+        vec![
+            Block { typesets: vec![II, DD, ID, DI, SI, IS], level: Level::Full, dom: Dom::Four, rows: Rows::Sequences(0, 2) },
+            Block { typesets: vec![II, DD, ID, DI, SI, IS], level: Level::Core, dom: Dom::Four, rows: Rows::MultisetsBothOrders(3) },
+            Block { typesets: vec![SB, BS, RN, NR], level: Level::Core, dom: Dom::Four, rows: Rows::Sequences(0, 2) },
+            Block { typesets: vec![II, DD, ID, DI], level: Level::Small, dom: Dom::Four, rows: Rows::Multisets(4) },
+            Block { typesets: vec![II, DD, ID, DI], level: Level::Small, dom: Dom::Extended, rows: Rows::Sequences(1, 2) },
+        ]
+    }
+}
+
+fn setup_sql(ts: &TypeSet, rows: &[Vec<V>]) -> Vec<String> {
+    let mut s = common::table_sql("t", &[("a", ts[0].sql_type()), ("b", ts[1].sql_type())], rows);
+    s.push("CREATE VIEW v AS SELECT a, b FROM t".into());
+    s
+}
+
+/// Do the rows hold a number of magnitude 2^53 or more (where f64 stops representing every integer)?
+fn magnitude_class(rows: &[Vec<V>]) -> &'static str {
+    let big = rows.iter().flatten().any(|v| match v {
+        V::I(i) => i.unsigned_abs() >= (1u64 << 53),
+        V::F(f) => f.abs() >= 9007199254740992.0,
+        _ => false,
+    });
+    if big {
+        "2^53_or_more"
+    } else {
+        "small"
+    }
+}
+
+fn data_class(rows: &[Vec<V>]) -> &'static str {
+    if rows.is_empty() {
+        "empty"
+    } else if rows.iter().any(|r| r[0].is_null()) {
+        "null_in_first_column"
+    } else if rows.iter().any(|r| r[1].is_null()) {
+        "null_in_second_column"
+    } else {
+        "no_nulls"
+    }
+}
+
+// ---------------------------------------------------------------------------------------------
+// the check
+// ---------------------------------------------------------------------------------------------
+
+/// At most this many new violation signatures are written out in detail per run (simplest
+/// first); further ones are counted. Signatures of open known findings are never cut.
+const MAX_REPORTED: usize = 40;
+
+struct Fail {
+    sig: Vec<(&'static str, String)>,
+    key: String,
+    what: String,
+    case: Value,
+    oracle: &'static str,
+    rows: Vec<Vec<V>>,
+    qu: Q,
+}
+
+#[derive(Default)]
+struct Counters {
+    evaluations: u64,
+    both_reject: u64,
+    columnar_cases: u64,
+    columnar_empty_input: u64,
+    columnar_filter_bitmap: u64,
+    columnar_simd_i64: u64,
+    columnar_simd_f64: u64,
+    columnar_scalar: u64,
+    columnar_expression: u64,
+    having_removed: u64,
+    limit_removed: u64,
+    ok_rows: u64,
+    errs: u64,
+    ref_mismatch_outside_laws: u64,
+    outcomes: HashSet<u64>,
+    fails: Vec<Fail>,
+    seen: HashSet<String>,
+    failing: u64,
+}
+
+impl Counters {
+    fn absorb(&mut self, c: Counters) {
+        self.evaluations += c.evaluations;
+        self.both_reject += c.both_reject;
+        self.columnar_cases += c.columnar_cases;
+        self.columnar_empty_input += c.columnar_empty_input;
+        self.columnar_filter_bitmap += c.columnar_filter_bitmap;
+        self.columnar_simd_i64 += c.columnar_simd_i64;
+        self.columnar_simd_f64 += c.columnar_simd_f64;
+        self.columnar_scalar += c.columnar_scalar;
+        self.columnar_expression += c.columnar_expression;
+        self.having_removed += c.having_removed;
+        self.limit_removed += c.limit_removed;
+        self.ok_rows += c.ok_rows;
+        self.errs += c.errs;
+        self.ref_mismatch_outside_laws += c.ref_mismatch_outside_laws;
+        self.failing += c.failing;
+        self.outcomes.extend(c.outcomes);
+        for f in c.fails {
+            if self.seen.insert(f.key.clone()) {
+                self.fails.push(f);
+            }
+        }
+    }
+}
+
+fn case_json(ts: &TypeSet, rows: &[Vec<V>], qu: &Q, expected: &[Vec<V>]) -> Value {
+    json!({
+        "kind": "c03",
+        "types": typeset_name(ts),
+        "steps": setup_sql(ts, rows),
+        "query": qu.sql(),
+        "expected_by_definition": fmt_ref(expected),
+        "note": "run the query as shipped and with the columnar gate forced off (vibesql_types::verif::set_columnar_off)",
+    })
+}
+
+fn fmt_ref(rows: &[Vec<V>]) -> String {
+    vcore::val::fmt_bag(&rows.iter().map(|r| r.iter().map(nv).collect()).collect::<Vec<Vec<NV>>>())
+}
+
+/// One failed oracle on one case: (oracle, the aggregate(s) concerned, description).
+type Verdict = (&'static str, String, String);
+
+/// Decide one (database, query) case.
+fn judge(qu: &Q, rows: &[Vec<V>], on: &Obs, off: &Obs, c: &mut Counters) -> Vec<Verdict> {
+    let mut out: Vec<Verdict> = vec![];
+    let (agg_row, expect) = qu.reference(rows);
+    let all = || qu.aggs.iter().map(Q::agg_label).collect::<Vec<_>>().join(",");
+    match (on, off) {
+        (Obs::Panic, _) => out.push(("panic", all(), "the shipped configuration panicked".to_string())),
+        (_, Obs::Panic) => out.push(("panic_row_path", all(), "row execution (gate off) panicked".to_string())),
+        (Obs::Err, Obs::Err) => {
+            c.both_reject += 1;
+            return out;
+        }
+        (Obs::Err, Obs::Rows(r)) => out.push((
+            "columnar_rejects",
+            all(),
+            format!("row execution returns {} but the shipped configuration returns an error", vcore::val::fmt_bag(r)),
+        )),
+        (Obs::Rows(r), Obs::Err) => out.push((
+            "row_path_rejects",
+            all(),
+            format!("row execution returns an error but the shipped configuration returns {}", vcore::val::fmt_bag(r)),
+        )),
+        (Obs::Rows(a), Obs::Rows(b)) => {
+            if a != b {
+                // which aggregates differ (row count differences are named as such)
+                let label = if a.len() != b.len() {
+                    "row_count".to_string()
+                } else {
+                    let mut l: Vec<String> = vec![];
+                    for (ra, rb) in a.iter().zip(b.iter()) {
+                        for (i, g) in qu.aggs.iter().enumerate() {
+                            if ra.get(i) != rb.get(i) && !l.contains(&Q::agg_label(g)) {
+                                l.push(Q::agg_label(g));
+                            }
+                        }
+                    }
+                    l.join(",")
+                };
+                out.push((
+                    "path_differential",
+                    label,
+                    format!(
+                        "shipped configuration returns {} but row execution (gate off) returns {}; by definition {}",
+                        vcore::val::fmt_bag(a),
+                        vcore::val::fmt_bag(b),
+                        fmt_ref(&expect)
+                    ),
+                ));
+            }
+        }
+    }
+    if let Obs::Rows(a) = on {
+        // law 1: COUNT is never NULL
+        for r in a {
+            for (i, g) in qu.aggs.iter().enumerate() {
+                if matches!(g.f, Func::Count | Func::CountStar) && r.get(i) == Some(&NV::Null) {
+                    out.push(("law_count_never_null", Q::agg_label(g), format!("COUNT column {} is NULL in {}", i + 1, vcore::val::fmt_bag(a))));
+                }
+            }
+        }
+        // law 2: exactly one row unless HAVING / LIMIT / OFFSET removes it
+        if a.len() != expect.len() {
+            out.push((
+                "law_one_row_unless_removed",
+                "row_count".into(),
+                format!("{} row(s) returned, {} expected (HAVING/LIMIT/OFFSET by definition): {}", a.len(), expect.len(), vcore::val::fmt_bag(a)),
+            ));
+        }
+        // law 3: NULLs are ignored by SUM/AVG/MIN/MAX/COUNT(col)
+        if let (Some(r), true) = (a.first(), a.len() == 1 && expect.len() == 1) {
+            let sel = qu.selected(rows);
+            let mut outside = false;
+            for (i, g) in qu.aggs.iter().enumerate() {
+                if r.get(i) == Some(&nv(&agg_row[i])) {
+                    continue;
+                }
+                let has_null = g.f != Func::CountStar && qu.agg_inputs(g, &sel).iter().any(|v| v.is_null());
+                if has_null {
+                    out.push((
+                        "law_nulls_ignored",
+                        Q::agg_label(g),
+                        format!(
+                            "{}({}) over inputs containing NULL is {} but {} by definition",
+                            g.f.name(),
+                            qu.arg_sql(&g.arg),
+                            r.get(i).map(vcore::val::fmt_nv).unwrap_or_default(),
+                            vcore::val::fmt_nv(&nv(&agg_row[i]))
+                        ),
+                    ));
+                } else {
+                    outside = true;
+                }
+            }
+            if outside && on == off {
+                // both paths agree with each other and differ from the definition on NULL-free
+                // inputs: not something C03 states; counted and shown, decided by C07/C01
+                c.ref_mismatch_outside_laws += 1;
+            }
+        }
+    }
+    out
+}
+
+fn hash_obs(o: &Obs) -> u64 {
+    vcore::util::hash64(format!("{:?}", o).as_bytes())
+}
+
+fn types_class(ts: &TypeSet) -> &'static str {
+    match (ts[0], ts[1]) {
+        (Kind::Int, Kind::Int) => "int",
+        (Kind::Dbl, Kind::Dbl) => "double",
+        (Kind::Str, _) => "string_first",
+        (_, Kind::Str) => "string_second",
+        (Kind::Small, _) | (_, Kind::Small) | (Kind::Big, _) | (_, Kind::Big) => "smallint_bigint",
+        (Kind::Real, _) | (_, Kind::Real) | (Kind::Num, _) | (_, Kind::Num) => "real_numeric",
+        _ => "int_double_mixed",
+    }
+}
+
+pub fn run(tier: &str) -> i32 {
+    let thorough = tier == "thorough";
+    let mut rep = Report::new("C03", tier, "model_checking");
+    let blocks = plan(thorough);
+
+    let mut total = Counters::default();
+    let mut per_block = vec![];
+    let mut queries_total = 0usize;
+    let mut dbs_total = 0usize;
+    let mut columnar_queries_total = 0usize;
+    let mut vacuous: Vec<String> = vec![];
+    let mut samples: Vec<Value> = vec![];
+
+    for (bi, block) in blocks.iter().enumerate() {
+      for ts in &block.typesets {
+        let fam = family(ts, block.level);
+        // parse once; a family member the parser rejects is a machinery error (never a verdict)
+        let mut stmts: Vec<SelectStmt> = Vec::with_capacity(fam.len());
+        for qu in &fam {
+            match common::parse_select(&qu.sql()) {
+                Ok(s) => stmts.push(s),
+                Err(e) => {
+                    rep.machinery_error(format!("family query does not parse: {} => {}", qu.sql(), e));
+                    return rep.finish();
+                }
+            }
+        }
+        // sequential pre-pass: which queries go through execute_columnar (depends on query and
+        // schema only, not on the data)
+        let probe_rows = vec![vec![ts[0].domain(Dom::Three)[1].clone(), ts[1].domain(Dom::Three)[1].clone()]];
+        let probe_db = match common::build_db(&setup_sql(ts, &probe_rows)) {
+            Ok(d) => d,
+            Err((s, o)) => {
+                rep.machinery_error(format!("setup rejected: {} => {}", s, o));
+                return rep.finish();
+            }
+        };
+        let columnar: Vec<bool> = stmts.iter().map(|s| common::takes_columnar(&probe_db, s)).collect();
+        let n_col = columnar.iter().filter(|b| **b).count();
+        columnar_queries_total += n_col;
+        queries_total += fam.len();
+
+        let dbs = databases(ts, block.dom, block.rows);
+        dbs_total += dbs.len();
+
+        let results: Vec<Result<Counters, String>> = par_map(&dbs, |_, rows| {
+            let mut c = Counters::default();
+            let db = match common::build_db(&setup_sql(ts, rows)) {
+                Ok(d) => d,
+                Err((s, o)) => return Err(format!("setup rejected: {} => {}", s, o)),
+            };
+            for (qi, qu) in fam.iter().enumerate() {
+                let (on, on_msg) = common::run(&db, &stmts[qi], false);
+                let (off, off_msg) = common::run(&db, &stmts[qi], true);
+                c.evaluations += 1;
+                c.outcomes.insert(hash_obs(&on));
+                match &on {
+                    Obs::Rows(_) => c.ok_rows += 1,
+                    _ => c.errs += 1,
+                }
+                if columnar[qi] {
+                    c.columnar_cases += 1;
+                    if rows.is_empty() {
+                        c.columnar_empty_input += 1;
+                    }
+                    if !qu.wher.is_empty() {
+                        c.columnar_filter_bitmap += 1;
+                    }
+                    for g in &qu.aggs {
+                        match &g.arg {
+                            Arg::Mul | Arg::Add => c.columnar_expression += 1,
+                            Arg::Star | Arg::Col(_) => {
+                                let ci = if let Arg::Col(i) = g.arg { i } else { 0 };
+                                match rows.iter().map(|r| &r[ci]).find(|v| !v.is_null()) {
+                                    Some(V::I(_)) => c.columnar_simd_i64 += 1,
+                                    Some(V::F(_)) => c.columnar_simd_f64 += 1,
+                                    _ => c.columnar_scalar += 1,
+                                }
+                            }
+                        }
+                    }
+                }
+                let (_, expect) = qu.reference(rows);
+                if expect.is_empty() {
+                    if qu.having.is_some() && qu.limit != Some(0) && qu.offset.unwrap_or(0) == 0 {
+                        c.having_removed += 1;
+                    } else {
+                        c.limit_removed += 1;
+                    }
+                }
+                let fails = judge(qu, rows, &on, &off, &mut c);
+                for (oracle, agg, what) in fails {
+                    c.failing += 1;
+                    let sig = vec![
+                        ("oracle", oracle.to_string()),
+                        ("agg", agg),
+                        ("where", qu.where_shape().to_string()),
+                        ("tail", qu.tail_shape().to_string()),
+                        ("src", format!("{:?}", qu.src).to_lowercase()),
+                        ("types", types_class(ts).to_string()),
+                        ("data", data_class(rows).to_string()),
+                        ("magnitude", magnitude_class(rows).to_string()),
+                    ];
+                    let key = format!("{:?}", sig);
+                    if !c.seen.insert(key.clone()) {
+                        continue;
+                    }
+                    let msgs = if on_msg.is_empty() && off_msg.is_empty() {
+                        String::new()
+                    } else {
+                        format!(" [shipped: {} | gate off: {}]", on_msg, off_msg)
+                    };
+                    c.fails.push(Fail {
+                        sig,
+                        key,
+                        what: format!("{} on ({}) rows {}: {}{}", qu.sql(), typeset_name(ts), fmt_ref(rows), what, msgs),
+                        case: case_json(ts, rows, qu, &expect),
+                        oracle,
+                        rows: rows.clone(),
+                        qu: qu.clone(),
+                    });
+                }
+            }
+            Ok(c)
+        });
+
+        let mut tsc = Counters::default();
+        for r in results {
+            match r {
+                Err(e) => rep.machinery_error(e),
+                Ok(c) => tsc.absorb(c),
+            }
+        }
+        per_block.push(json!({
+            "block": bi, "types": typeset_name(ts), "family_level": format!("{:?}", block.level),
+            "domain": format!("{:?}", block.dom), "rows": format!("{:?}", block.rows),
+            "queries": fam.len(), "queries_through_columnar": n_col,
+            "databases": dbs.len(), "evaluations": tsc.evaluations, "columnar_cases": tsc.columnar_cases,
+            "failing_cases": tsc.failing,
+        }));
+        if n_col == 0 {
+            vacuous.push(format!("columnar_taken[{}]", typeset_name(ts)));
+        }
+        if samples.len() < 8 {
+            let qi = (fam.len() / 3 + samples.len() * 7) % fam.len();
+            samples.push(json!({"types": typeset_name(ts), "setup": setup_sql(ts, &dbs[dbs.len() / 2]), "query": fam[qi].sql(), "through_columnar": columnar[qi]}));
+        }
+        total.absorb(tsc);
+      }
+    }
+
+    // Known open findings are matched here as well (read-only), so that the cut below never hides
+    // one of them and never hides a new signature behind them.
+    let findings = vcore::report::load_findings("C03");
+    let is_known = |f: &Fail| findings.iter().any(|k| k.sig.iter().all(|(key, want)| f.sig.iter().any(|(a, b)| a == key && b == want)));
+    let mut new_kept = 0usize;
+    let mut cut = 0usize;
+    let mut confirmed: Vec<Fail> = vec![];
+    // every reported first witness is re-executed twice from scratch before it is reported
+    for f in std::mem::take(&mut total.fails) {
+        if !is_known(&f) {
+            if new_kept >= MAX_REPORTED {
+                cut += 1;
+                continue;
+            }
+            new_kept += 1;
+        }
+        let again = |f: &Fail| -> Result<(Obs, Obs, bool), String> {
+            let (on, off) = reexecute(&f.case)?;
+            let mut scratch = Counters::default();
+            let still = judge(&f.qu, &f.rows, &on, &off, &mut scratch).iter().any(|(o, _, _)| *o == f.oracle);
+            Ok((on, off, still))
+        };
+        match (again(&f), again(&f)) {
+            (Ok(x), Ok(y)) if x == y => {
+                if x.2 {
+                    confirmed.push(f);
+                } else {
+                    rep.machinery_error(format!("violation did not reproduce from scratch: {}", f.what));
+                }
+            }
+            (Ok(x), Ok(y)) => rep.machinery_error(format!("re-execution is not deterministic: {:?} vs {:?} for {}", x, y, f.what)),
+            (Err(e), _) | (_, Err(e)) => rep.machinery_error(format!("re-execution failed: {} for {}", e, f.what)),
+        }
+    }
+    // `failing` counts (case, oracle) pairs; merge keeps the first witness per signature
+    let n_fail = total.failing;
+    let vs: Vec<vcore::report::Violation> = confirmed
+        .into_iter()
+        .map(|f| vcore::report::Violation {
+            sig: f.sig.iter().map(|(k, v)| (k.to_string(), v.clone())).collect::<BTreeMap<_, _>>(),
+            what: f.what,
+            case: f.case,
+        })
+        .collect();
+    rep.merge_violations(vs, n_fail);
+
+    let (reach, _) = vcore::report::reach_json(&["columnar_taken"]);
+    rep.set("states", json!(dbs_total));
+    rep.set("transitions", json!(total.evaluations * 2));
+    rep.set("traces_validated_against_impl", json!(total.evaluations * 2));
+    rep.set("evaluations", json!(total.evaluations));
+    rep.set("distinct_nontrivial", json!(total.outcomes.len()));
+    rep.set("exhaustive", json!(true));
+    rep.set(
+        "bounds",
+        json!({
+            "blocks": blocks.iter().map(|b| json!({
+                "type_sets": b.typesets.iter().map(typeset_name).collect::<Vec<_>>(),
+                "family_level": format!("{:?}", b.level), "domain": format!("{:?}", b.dom), "rows": format!("{:?}", b.rows),
+            })).collect::<Vec<_>>(),
+            "domains": "Three = NULL,1,2 (strings NULL,'a','b'); Four = NULL,0,1,2 (strings + 'ab'); Extended = Four + i64::MAX, 2^53+1 (INT) / 0.5, 2^53 (DOUBLE)",
+            "queries_all_blocks": queries_total,
+            "queries_through_columnar_all_blocks": columnar_queries_total,
+            "databases": dbs_total,
+        }),
+    );
+    rep.set("per_block", json!(per_block));
+    rep.set("distinct_outcomes", json!(total.outcomes.len()));
+    rep.set("ok_results", json!(total.ok_rows));
+    rep.set("error_results", json!(total.errs));
+    rep.set("cases_both_paths_reject", json!(total.both_reject));
+    rep.set(
+        "reach",
+        json!({
+            "columnar_taken_hook_total": reach.get("columnar_taken").cloned().unwrap_or(json!(0)),
+            "cases_through_execute_columnar": total.columnar_cases,
+            "columnar_empty_input_early_return": total.columnar_empty_input,
+            "columnar_with_filter_bitmap": total.columnar_filter_bitmap,
+            "aggregates_simd_i64": total.columnar_simd_i64,
+            "aggregates_simd_f64": total.columnar_simd_f64,
+            "aggregates_scalar_fallback": total.columnar_scalar,
+            "aggregates_over_expression": total.columnar_expression,
+            "cases_removed_by_having": total.having_removed,
+            "cases_removed_by_limit_offset": total.limit_removed,
+        }),
+    );
+    rep.set("reference_mismatch_outside_stated_laws", json!(total.ref_mismatch_outside_laws));
+    rep.set("violation_signatures_not_written_out", json!(cut));
+    rep.set("vacuous_mechanisms", json!(vacuous));
+    rep.set("samples", json!(samples));
+    rep.assume("row execution (gate forced off through vibesql_types::verif) is the oracle for value equality; the three stated laws are decided against definitions in harness/agg/src/refagg.rs");
+    rep.assume("PARALLEL_THRESHOLD=max (sequential operators); C04 covers the parallel configurations");
+    println!(
+        "C03 {}: {} databases × family = {} evaluations (each on both paths), {} through execute_columnar, {} distinct outcomes, {} ok / {} error results, {} failing (case, oracle) pairs",
+        tier, dbs_total, total.evaluations, total.columnar_cases, total.outcomes.len(), total.ok_rows, total.errs, n_fail
+    );
+    if cut > 0 {
+        println!("note: {} further violation signatures were counted but not written out (limit {})", cut, MAX_REPORTED);
+    }
+    if total.ref_mismatch_outside_laws > 0 {
+        println!("note: {} cases where both paths agree but differ from the definition on NULL-free inputs (outside C03's statement)", total.ref_mismatch_outside_laws);
+    }
+    for v in &vacuous {
+        println!("WARNING vacuous mechanism: {}", v);
+    }
+    rep.finish()
+}
+
+/// Re-execute a recorded case from scratch: (shipped, gate off) observations.
+fn reexecute(case: &Value) -> Result<(Obs, Obs), String> {
+    let steps: Vec<String> =
+        case["steps"].as_array().ok_or("case without steps")?.iter().filter_map(|s| s.as_str().map(|x| x.to_string())).collect();
+    let db = common::build_db(&steps).map_err(|(s, o)| format!("{} => {}", s, o))?;
+    let stmt = common::parse_select(case["query"].as_str().ok_or("case without query")?)?;
+    let (on, _) = common::run(&db, &stmt, false);
+    let (off, _) = common::run(&db, &stmt, true);
+    Ok((on, off))
+}
+
+pub fn replay(case: &Value) -> i32 {
+    if let Some(steps) = case["steps"].as_array() {
+        for s in steps {
+            println!("{}", s.as_str().unwrap_or(""));
+        }
+    }
+    println!("{}", case["query"].as_str().unwrap_or(""));
+    match reexecute(case) {
+        Err(e) => {
+            eprintln!("MACHINERY-ERROR replay failed: {}", e);
+            2
+        }
+        Ok((on, off)) => {
+            let want = case["expected_by_definition"].as_str().unwrap_or("?");
+            println!("   shipped configuration => {}", on.brief());
+            println!("   columnar gate off      => {}", off.brief());
+            println!("   by definition          => {}", want);
+            if on != off || on.brief() != want {
+                println!("REPRODUCED");
+                1
+            } else {
+                println!("not reproduced (all three agree)");
+                0
+            }
+        }
+    }
 }
